@@ -10,6 +10,7 @@ from mdmc import core, pegen, trees
 from mdmc.engines import streams
 
 ID = "C11"
+FRESH_PROCESS_PER_UNIT = True
 TITLE = "Plain indicators are found at any offset with exact span and canonical value"
 
 OFFSETS = {"quick": list(range(0, 13)), "thorough": list(range(0, 13))}
@@ -56,7 +57,7 @@ def describe(tier):
             f"{len(instances())} indicator instances from the documented grammars (IPv4, domains, URLs scheme x host kind x path/query/fragment, e-mails, POSIX "
             "and Windows paths, .exe/.dll names, CreateObject calls with nested parentheses) x EVERY offset 0..12 x neutral delimiters {space, tab, LF} on both "
             f"sides x {len(WORDS_PRE)}x{len(WORDS_SUF)} neutral prefix/suffix words; every documented false-positive trigger {[t.decode() for t in TRIGGERS]} in prefix AND in suffix "
-            "position (a trigger may suppress only when it precedes); additionally ALL IPv4 addresses with octets from "
+            "position (a trigger may suppress only when it precedes); the instance surrounded by copies of itself in other letter cases (upper, lower, capitalised labels, swapped, lower first label + capitalised rest, upper last label); additionally ALL IPv4 addresses with octets from "
             f"{OCT} (last octet without 0/255), EVERY entry of TOP_LEVEL_DOMAINS x 2 label shapes, CreateObject with unbalanced tails, and valid PE images with 1-3 sections at 4 offsets. "
             "Each input is scanned with the shipped decoders; oracle: a node of the documented type with the canonical value and exactly the instance's "
             "absolute span (sum of starts along undecoded contexts) exists; differential: across all embeddings of one instance the node's "
@@ -133,6 +134,18 @@ def run_unit(unit, rec):
         types, text, value = instances()[unit[2]]
         profile = []
         n = 0
+        # the same indicator spelled in another letter case earlier in the text (or in an earlier scan) is unrelated neighbouring text
+        labels = text.split(b".")
+        for variant in {text.upper(), text.lower(), b".".join(p[:1].upper() + p[1:].lower() for p in labels), text.swapcase(),
+                        b".".join([labels[0].lower()] + [p[:1].upper() + p[1:].lower() for p in labels[1:]]),
+                        b".".join([p.lower() for p in labels[:-1]] + [labels[-1].upper()])}:
+            if variant == text:
+                continue
+            for d in (b" ", b"\n"):
+                data = variant + d + text + d + variant
+                a = len(variant + d)
+                check(rec, data, a, a + len(text), types, value, {"kind": "inst", "data": data, "span": [a, a + len(text)], "types": list(types), "value": value},
+                      sig_extra="|case-variant-neighbour", profile=None)
         for off, d1, d2, pre, suf in embeddings(unit[1]):
             head = b" " * off + pre + (d1 if (pre or off) else b"")
             data = head + text + (d2 + suf if suf else b"")
